@@ -282,3 +282,128 @@ func VerifC16_CascadeReachesSystemEntity() {
 func init() {
 	verifQueryFamilies = append(verifQueryFamilies, func() []string { return []string{`owner = "x"`} })
 }
+
+// ---- a child store layered on the system-entity store ----
+
+type vSysKid struct {
+	vSysEnt
+	Note string
+}
+
+type vSysKidStrategy struct{ parent *vSysStore }
+
+func (s *vSysKidStrategy) NewEntity() *vSysKid { return new(vSysKid) }
+func (s *vSysKidStrategy) FillEntity(e *vSysKid, b *TypedBucket) {
+	_, err := s.parent.LoadEntity(b.Tx(), e.Id, &e.vSysEnt)
+	b.SetError(err)
+	e.Note = b.GetStringWithDefault("note", "")
+}
+func (s *vSysKidStrategy) PersistEntity(e *vSysKid, ctx *PersistContext) {
+	s.parent.GetEntityStrategy().PersistEntity(&e.vSysEnt, ctx.GetParentContext())
+	ctx.SetString("note", e.Note)
+}
+
+type vSysKidStore struct {
+	*BaseStore[*vSysKid]
+}
+
+func verifNewSysKidStore(parent *vSysStore) *vSysKidStore {
+	def := StoreDefinition[*vSysKid]{
+		EntityStrategy:  &vSysKidStrategy{parent: parent},
+		EntityNotFoundF: func(id string) error { return NewNotFoundError(vSysType, "id", id) },
+		BasePath:        []string{"kid"},
+		Parent:          parent,
+		ParentMapper: func(e Entity) Entity {
+			if k, ok := e.(*vSysKid); ok {
+				return &k.vSysEnt
+			}
+			return e
+		},
+	}
+	s := &vSysKidStore{BaseStore: NewBaseStore(def)}
+	s.InitImpl(s)
+	parent.GrantSymbols(s)
+	parent.RegisterChildStoreStrategy(&ChildStoreUpdateHandler[*vSysEnt, *vSysKid]{
+		Store: s,
+		Mapper: func(ctx MutateContext, p *vSysEnt) (*vSysKid, bool) {
+			if !s.IsEntityPresent(ctx.Tx(), p.Id) {
+				return nil, false
+			}
+			k, found, _ := s.FindById(ctx.Tx(), p.Id)
+			if !found {
+				return nil, false
+			}
+			k.vSysEnt = *p
+			return k, true
+		},
+	})
+	return s
+}
+
+// VerifC16_ChildStoreSystemEntities: the constraint sits on the parent store;
+// entities created through a child store are protected all the same. One
+// entity (system or not, with child data), then an update or delete through
+// either store from an ordinary or a system context (updates with or without a
+// field checker): allowed iff the entity is not a system entity or the
+// context is a system context; a refused operation changes nothing.
+func VerifC16_ChildStoreSystemEntities() {
+	env := verifNewSysEnv()
+	defer env.raw.Close()
+	kids := verifNewSysKidStore(env.store)
+	system := verifrt.Bool("system")
+	err := env.db.Update(NewMutateContext(context.Background()), func(ctx MutateContext) error {
+		c := ctx
+		if system {
+			c = ctx.GetSystemContext()
+		}
+		return kids.Create(c, &vSysKid{vSysEnt: vSysEnt{BaseExtEntity: BaseExtEntity{Id: "a", IsSystem: system}, Name: "n0"}, Note: "k0"})
+	})
+	verifrt.Assert(err == nil, "C16 creating through the child store (system entities from a system context) succeeds")
+	// an ordinary context may not create a system entity through the child store either
+	err = env.db.Update(NewMutateContext(context.Background()), func(ctx MutateContext) error {
+		return kids.Create(ctx, &vSysKid{vSysEnt: vSysEnt{BaseExtEntity: BaseExtEntity{Id: "ab", IsSystem: true}, Name: "n9"}, Note: "k9"})
+	})
+	verifrt.Assert(err != nil, "C16 creating a system entity through the child store from an ordinary context is refused")
+	var before []vDumpEntry
+	_ = env.db.View(func(tx *bbolt.Tx) error { before = verifDump(tx); return nil })
+	op := verifrt.Choose("op", 2) // 0 update, 1 delete
+	viaChild := verifrt.Bool("viachild")
+	sysCtx := verifrt.Bool("sysctx")
+	patch := verifrt.Bool("patch")
+	err = env.db.Update(NewMutateContext(context.Background()), func(ctx MutateContext) error {
+		c := ctx
+		if sysCtx {
+			c = ctx.GetSystemContext()
+		}
+		ent := &vSysEnt{BaseExtEntity: BaseExtEntity{Id: "a", IsSystem: system}, Name: "n1"}
+		if op == 1 {
+			if viaChild {
+				return kids.DeleteById(c, "a")
+			}
+			return env.store.DeleteById(c, "a")
+		}
+		var checker FieldChecker
+		if patch {
+			checker = MapFieldChecker{vFName: struct{}{}, "note": struct{}{}}
+		}
+		if viaChild {
+			return kids.Update(c, &vSysKid{vSysEnt: *ent, Note: "k1"}, checker)
+		}
+		return env.store.Update(c, ent, checker)
+	})
+	allowed := !system || sysCtx
+	verifrt.Assert((err == nil) == allowed, "C16 a child-store entity is changed iff it is not a system entity or the context is a system context")
+	_ = env.db.View(func(tx *bbolt.Tx) error {
+		if !allowed {
+			verifrt.Assert(verifDumpEqual(before, verifDump(tx)), "C16 a refused change of a child-store system entity changes nothing")
+			return nil
+		}
+		e, found, ferr := env.store.FindById(tx, "a")
+		if op == 1 {
+			verifrt.Assert(ferr == nil && !found && kids.GetEntityBucket(tx, []byte("a")) == nil, "C16 an allowed delete removes both parts")
+		} else {
+			verifrt.Assert(ferr == nil && found && e.Name == "n1" && e.IsSystem == system, "C16 an allowed update is stored and keeps the flag")
+		}
+		return nil
+	})
+}
